@@ -127,6 +127,13 @@ class Fragment:
             if hier_name is None:
                 hier_name = f"<unnamed #{i}>"
 
+            if isinstance(subfrag, Instance):
+                # An instance cannot define clock domains, and the same `Instance` object is reused
+                # each time the design that contains it is elaborated; do not let it keep the domains
+                # of an earlier elaboration, or `ClockSignal()` and `ResetSignal()` connected to it
+                # would refer to clock domains that are no longer a part of the design.
+                subfrag.domains = OrderedDict()
+
             for domain in self.iter_domains():
                 if domain not in subfrag.domains:
                     subfrag.add_domains(self.domains[domain])
